@@ -32,6 +32,22 @@ var corpus = []proto.Message{
 
 var nativeReps = 1
 
+// nFixed is the number of hand-written corpus types at the head of corpus (the
+// random corpus types are appended behind them at start-up).
+var nFixed = len(corpus)
+
+// pickTypeIndex draws a corpus type: half of the draws go to the hand-written
+// types (checked-in ones and the all-shapes schema, which alone hold Any,
+// Timestamp, every map kind ...), half to the whole corpus.
+func pickTypeIndex(t *simhook.Tape) int {
+	if len(corpus) == nFixed || t.Draw("type-fixed", 2) == 0 {
+		return t.Draw("type", nFixed)
+	}
+	return t.Draw("type-any", len(corpus))
+}
+
+func pickType(t *simhook.Tape) proto.Message { return corpus[pickTypeIndex(t)] }
+
 func main() {
 	simrun.Main(&simrun.Engine{
 		Name:     "A-maporder",
@@ -109,7 +125,7 @@ func marshalVariant(m proto.Message, api int, prefix []byte) (b []byte, err erro
 func run(c *simrun.Ctx) *simrun.Violation {
 	t := c.T
 	st := c.Stats
-	proto0 := corpus[t.Draw("type", len(corpus))]
+	proto0 := pickType(t)
 	mt := proto0.ProtoReflect().Type()
 	md := mt.Descriptor()
 	cfg := simval.GenCfg{MaxDepth: 1 + t.Draw("maxdepth", 3), MaxFields: 1 + t.Draw("maxfields", 6), MaxMapEntries: 2 + t.Draw("maxentries", 11), MaxListLen: 1 + t.Draw("maxlist", 4), Unknown: t.Chance("unknowns", 1, 4), AnyTargets: anyTargets()}
